@@ -410,7 +410,85 @@ fn large_file_roundtrip(rep: &mut Report) {
     }
 }
 
+/// C16 on inputs the random stream does not draw: a caterpillar deeper than any recursion guard a writer might carry, written in
+/// every format and compared with a text put together here field by field; and a Nexus export of tips whose names look like
+/// the place holders of a text template
+fn fixed_formats(rep: &mut Report) {
+    use phylotree::tree::Node;
+    let depth = 1500usize;
+    let mut t = Tree::new();
+    let mut cur = t.add(Node::new_named("n0"));
+    for k in 0..depth {
+        let _ = t.add_child(Node::new_named(&format!("t{k}")), cur, Some((k % 5 + 1) as f64));
+        let name = if k + 1 == depth { format!("t{depth}") } else { format!("n{}", k + 1) };
+        match t.add_child(Node::new_named(&name), cur, Some(((k + 1) % 3 + 1) as f64)) {
+            Ok(id) => cur = id,
+            Err(_) => return,
+        }
+    }
+    for f in 0..9 {
+        let (tip_name, int_name) = match f { 0 | 2 | 3 | 5 => (true, true), 6 | 7 | 8 => (true, false), _ => (false, false) };
+        let (tip_len, int_len) = match f { 0 | 2 | 4 | 8 => (true, true), 7 => (false, true), 5 | 6 => (true, false), _ => (false, false) };
+        let field = |name: String, len: Option<usize>, tip: bool| {
+            let mut s = String::new();
+            if if tip { tip_name } else { int_name } { s += &name; }
+            if let Some(l) = len { if if tip { tip_len } else { int_len } { s += &format!(":{l}"); } }
+            s
+        };
+        let mut want = String::new();
+        for k in 0..depth {
+            want.push('(');
+            want += &field(format!("t{k}"), Some(k % 5 + 1), true);
+            want.push(',');
+        }
+        want += &field(format!("t{depth}"), Some(depth % 3 + 1), true);
+        for k in (0..depth).rev() {
+            want.push(')');
+            want += &field(format!("n{k}"), if k == 0 { None } else { Some(k % 3 + 1) }, false);
+        }
+        want.push(';');
+        let case = format!("real.caterpillar\t{depth} nested clades, tips t<k>, clades n<k>\tto_formatted_newick {:?}", FORMATS[f]);
+        rep.case(&case, true);
+        rep.count("deep_caterpillar_formats");
+        let t2 = t.clone();
+        match guarded(move || t2.to_formatted_newick(FORMATS[f])) {
+            Ok(Ok(got)) => if got != want {
+                let at = got.bytes().zip(want.bytes()).position(|(a, b)| a != b).unwrap_or(got.len().min(want.len()));
+                let cut = |s: &str| s.chars().skip(at.saturating_sub(20)).take(60).collect::<String>();
+                rep.oracle("format", &format!("deep-tree:{:?}", FORMATS[f]), &case, &format!("first difference at byte {at}: got ...{}... want ...{}...", cut(&got), cut(&want)));
+            },
+            other => rep.oracle("format", "deep-tree:error", &case, &format!("{:?}", other.map(|x| x.map(|_| ())))),
+        }
+    }
+    for names in [["{n}", "{labels}", "{nwk}"], ["{nwk}", "{n}", "{}"], ["{0}", "%s", "$1"], ["{labels}", "\\n", "{{n}}"]] {
+        let mut t = Tree::new();
+        let root = t.add(Node::new());
+        for (i, n) in names.iter().enumerate() {
+            let _ = t.add_child(Node::new_named(n), root, Some(1.0 + i as f64));
+        }
+        let case = format!("real.star\ttips named {names:?}\tto_nexus");
+        rep.case(&case, true);
+        rep.count("nexus:template-like-names");
+        let t2 = t.clone();
+        match guarded(move || t2.to_nexus()) {
+            Ok(Ok(s)) => {
+                let want = [format!("NTAX={};", names.len()), format!("TAXLABELS {};", names.join(" ")), format!("TREE tree1 = {}", t.to_newick().unwrap_or_default())];
+                for (w, what) in want.iter().zip(["ntax", "taxlabels", "tree"]) {
+                    if !s.contains(w.as_str()) {
+                        rep.oracle("nexus", &format!("{what}:template-like-names"), &case, &s);
+                        break;
+                    }
+                }
+            }
+            other => rep.oracle("nexus", "template-like-names:error", &case, &format!("{:?}", other.map(|x| x.map(|_| ())))),
+        }
+    }
+}
+
 pub fn run(prop: &str, thorough: bool, seed: u64, driver: &str, rep: &mut Report) {
+    if prop == "C16" {
+        fixed_formats(rep);
+    }
     if prop == "C01" {
         large_file_roundtrip(rep);
     }
